@@ -116,7 +116,7 @@ impl Program {
             }
             let opaque = rng.chance(1, 8);
             let ann = if opaque { "/** <div rustbindgen opaque></div> */\n" } else { "" };
-            let kw = if is_union { "union" } else { "struct" };
+            let kw = if is_union { "union" } else if bases.is_empty() && !body.contains("virtual") && rng.chance(1, 9) { "struct __attribute__((packed))" } else { "struct" };
             let bl = if bases.is_empty() { String::new() } else { format!(" : {}", bases.iter().map(|b| format!("public {}", units[*b].name)).collect::<Vec<_>>().join(", ")) };
             needs.sort();
             needs.dedup();
